@@ -35,8 +35,10 @@ def log(*a):
 class Lock:
     """process-wide lock around build steps (checks may run in parallel)."""
     def __init__(self, name="build"):
-        os.makedirs(BUILD, exist_ok=True)
-        self.path = os.path.join(BUILD, "." + name + ".lock")
+        # the Coq tree is shared whatever VERIF_BUILD says: its lock lives in a fixed place
+        base = os.path.join(VERIF, "build") if name.startswith("coq") else BUILD
+        os.makedirs(base, exist_ok=True)
+        self.path = os.path.join(base, "." + name + ".lock")
     def __enter__(self):
         self.f = open(self.path, "w")
         fcntl.flock(self.f, fcntl.LOCK_EX)
@@ -229,11 +231,16 @@ def coq_prepare():
 
 
 def coq_make(targets, timeout=1800):
-    """make -k the given .vo targets (full build, never -vos).  Returns (ok, log)."""
+    """make -k the given .vo targets (full build, never -vos).  Returns (ok, log).
+    A short global lock covers translator + Makefile + dependency regeneration; the compilation
+    itself only takes a lock per target set, so different properties build concurrently."""
     with Lock("coq"):
         errs = regen()
         coq_prepare()
-        rc, out = run(["make", "-k", "-j%d" % NCPU] + list(targets), cwd=COQ, timeout=timeout)
+        run(["make", ".Makefile.d"], cwd=COQ, timeout=600)
+    key = hashlib.sha1(" ".join(sorted(targets)).encode()).hexdigest()[:10]
+    with Lock("coqmake_" + key):
+        rc, out = run(["make", "-k", "-j%d" % max(4, NCPU // 2)] + list(targets), cwd=COQ, timeout=timeout)
     if errs:
         out = "\n".join(errs) + "\n" + out
         rc = rc or 1
@@ -332,9 +339,21 @@ def build_ocaml(pid, driver, extract_vo):
     d = os.path.join(BUILD, "ocaml", pid)
     os.makedirs(d, exist_ok=True)
     exe = os.path.join(d, "driver")
-    ml, mli = os.path.join(d, "model.ml"), os.path.join(d, "model.mli")
-    if not os.path.exists(ml):
+    # the Extraction command writes relative to coq/: always VERIF/build/ocaml/<pid>/
+    xd = os.path.join(VERIF, "build", "ocaml", pid)
+    os.makedirs(xd, exist_ok=True)
+    if not os.path.exists(os.path.join(xd, "model.ml")) and extract_vo:
+        # .vo cached but the extracted file is gone (fresh build dir): re-run the extraction
+        vo = os.path.join(COQ, extract_vo)
+        if os.path.exists(vo):
+            os.unlink(vo)
+        coq_make([extract_vo])
+    if not os.path.exists(os.path.join(xd, "model.ml")):
         raise BuildError("extraction produced no model.ml for %s" % pid)
+    if os.path.abspath(xd) != os.path.abspath(d):
+        for fn in ("model.ml", "model.mli"):
+            shutil.copy(os.path.join(xd, fn), os.path.join(d, fn))
+    ml, mli = os.path.join(d, "model.ml"), os.path.join(d, "model.mli")
     drv = os.path.join(VERIF, "ocaml", driver)
     key = hashlib.sha1(open(ml, "rb").read() + open(drv, "rb").read() +
                        open(os.path.join(VERIF, "ocaml", "vutil.ml"), "rb").read()).hexdigest()
